@@ -504,6 +504,8 @@ impl ContinuityStore {
             ) {
                 Ok(Some(tail)) => {
                     if !tail.events.is_empty() {
+                        #[cfg(rip_verif)]
+                        rip_kernel::verif::point("compile.after_tail", continuity_id);
                         // Prefer the full continuity sidecar's head seq so `from_seq` matches the
                         // truth stream even when the mr sidecar omits non-message events.
                         let head_seq = self
@@ -3699,7 +3701,11 @@ fn save_index(path: &Path, index: &ContinuityIndexV1) -> io::Result<()> {
         .map_err(|err| io::Error::new(io::ErrorKind::InvalidData, err))?;
     let tmp = path.with_extension("json.tmp");
     fs::write(&tmp, payload)?;
+    #[cfg(rip_verif)]
+    rip_kernel::verif::point("index.after_tmp", "");
     fs::rename(tmp, path)?;
+    #[cfg(rip_verif)]
+    rip_kernel::verif::point("index.after_rename", "");
     Ok(())
 }
 
